@@ -1,5 +1,6 @@
 mod common;
 mod c11;
+mod c15;
 
 fn main() {
     let args: Vec<String> = std::env::args().collect();
@@ -22,6 +23,7 @@ fn main() {
     std::panic::set_hook(Box::new(|_| {}));
     let out = match prop.as_str() {
         "C11" => c11::run(&outdir, seed, thorough),
+        "C15" => c15::run(&outdir, seed, thorough),
         _ => { eprintln!("unknown property {}", prop); std::process::exit(2); }
     };
     std::fs::write(format!("{}/oracle.json", outdir), serde_json::to_string_pretty(&out).unwrap()).unwrap();
